@@ -143,7 +143,7 @@ Qed.
 
 (* ---------------------------------------------------------------- the operations *)
 Lemma PQ_upd_sess : forall w s, (forall now, should_queue_pingreq s now = should_queue_pingreq (w_sess w) now) -> PQ w -> PQ (upd_sess w s).
-Proof. intros w s H Hq. unfold PQ in *. cbn [w_sess w_now upd_sess]. rewrite H. exact Hq. Qed.
+Proof. intros w s H [Hq Hc]. split; [cbn [w_sess w_now upd_sess]; rewrite H; exact Hq|apply upd_sess_calm; exact Hc]. Qed.
 
 (* the tail shared by the three operations: the packet has been retained, the drain runs *)
 Lemma finish_retained_wire : forall fuel w1 s2 bs o w',
@@ -318,17 +318,17 @@ Proof.
 Qed.
 
 Theorem flush_outbound_wire_any : forall fuel w w',
-  WInv (w_sess w) -> flush_outbound fuel w = (w', ODone tt) ->
+  WInv (w_sess w) -> Calm w -> flush_outbound fuel w = (w', ODone tt) ->
   w_wire w' = w_wire w ++ owed (s_ob (fst (maybe_queue_pingreq (w_sess w) (w_now w)))) /\ next_step (s_ob (w_sess w')) = None.
 Proof.
-  intros fuel w w' I H. destruct fuel as [|f]; [discriminate|].
+  intros fuel w w' I Hcalm H. destruct fuel as [|f]; [discriminate|].
   destruct (maybe_queue_pingreq (w_sess w) (w_now w)) as [s1 e] eqn:Eq.
   assert (Ee : e = None) by (cbn [flush_outbound] in H; rewrite Eq in H; destruct e; [discriminate|reflexivity]). subst e.
   set (w1 := upd_sess w s1).
   assert (I1 : WInv (w_sess w1)).
   { cbn [w1 w_sess upd_sess]. replace s1 with (fst (maybe_queue_pingreq (w_sess w) (w_now w))) by now rewrite Eq.
     eapply WInv_step; [apply SS_ping|exact I]. }
-  assert (Q1 : PQ w1) by (unfold PQ; cbn [w1 w_sess w_now upd_sess]; exact (pinged_pq _ _ _ Eq)).
+  assert (Q1 : PQ w1) by (split; [cbn [w1 w_sess w_now upd_sess]; exact (pinged_pq _ _ _ Eq)|apply upd_sess_calm; exact Hcalm]).
   assert (H1 : flush_outbound (S f) w1 = (w', ODone tt)).
   { cbn [flush_outbound] in H |- *. rewrite Eq in H. rewrite (pq_no_ping w1 Q1), upd_sess_id. exact H. }
   cbn [fst]. exact (flush_outbound_wire _ _ _ I1 Q1 H1).
